@@ -55,7 +55,8 @@ def worker(ctx):
     w.captures = clo_tree[3]
     b = w.body
     # ticket: the next() on the shared enumerated iterator, reached through the mutex
-    tick = [t for t in b.calls(r'::next$') if has(sym(b, t.args[0]), Call('Mutex::lock'))]
+    from analysis.sym import init_value as _iv
+    tick = [t for t in b.calls(r'::next$') if has(sym(b, t.args[0]), Call('Mutex::lock')) or has(_iv(b, sym(b, t.args[0])), Call('Mutex::lock'))]
     if len(tick) > 1:
         raise Definite('second-pull', 'the worker pulls from the shared input at %d sites (lines %s): an item is requested while the result of the previous one is '
                        'still held back, so delivering f(x_k) depends on the input answering a request for a later element (a request/response source deadlocks) and the '
